@@ -35,6 +35,9 @@ import (
 	"go.opentelemetry.io/otel"
 )
 
+// beaconBlockRootsToKeep is the number of slots for which beacon block roots are retained.
+const beaconBlockRootsToKeep = 32
+
 // Service is a sync committee aggregator.
 type Service struct {
 	log                                  zerolog.Logger
@@ -136,6 +139,13 @@ func New(ctx context.Context, params ...Parameter) (*Service, error) {
 func (s *Service) SetBeaconBlockRoot(slot phase0.Slot, root phase0.Root) {
 	s.beaconBlockRootsMu.Lock()
 	s.beaconBlockRoots[slot] = root
+	// Roots are removed when they are used for aggregation, but most slots have no
+	// aggregation duty; remove those that are too old to be asked for.
+	for rootSlot := range s.beaconBlockRoots {
+		if rootSlot+beaconBlockRootsToKeep < slot {
+			delete(s.beaconBlockRoots, rootSlot)
+		}
+	}
 	s.beaconBlockRootsMu.Unlock()
 }
 
